@@ -35,6 +35,8 @@ class Close:
     form: str
     atol_expr: str = ""
     magnitude: Optional[ast.expr] = None
+    squared: bool = False
+    tol_node: Optional[ast.expr] = None
 
     def describe(self) -> str:
         return f"{self.form}: atol={self.atol_expr or self.atol}, rtol={self.rtol}"
@@ -117,6 +119,25 @@ def parse(repo: Repo, mod: Module, test: ast.expr) -> Optional[Close]:
                 return is_mag(e.left)
             return isinstance(e, ast.Call) and (attr_chain(e.func) or "") in NORM_CALLS | {"f." + c for c in ()} or (isinstance(e, ast.Call) and (attr_chain(e.func) or "").split(".")[-1] in ("norm", "abs", "fabs"))
 
+        def is_sq(e: ast.expr) -> bool:
+            """a squared length: dot(d, d), d.dot(d), d @ d, sum(d**2), sum(d*d), norm(d)**2"""
+            if isinstance(e, ast.Call):
+                nm = (attr_chain(e.func) or "").split(".")[-1]
+                if nm == "dot":
+                    ops = list(e.args) if len(e.args) == 2 else ([e.func.value, e.args[0]] if isinstance(e.func, ast.Attribute) and len(e.args) == 1 else [])
+                    return len(ops) == 2 and ast.dump(ops[0]) == ast.dump(ops[1])
+                if nm == "sum" and e.args:
+                    a0 = e.args[0]
+                    if isinstance(a0, ast.BinOp) and isinstance(a0.op, ast.Pow) and isinstance(a0.right, ast.Constant) and a0.right.value == 2:
+                        return True
+                    if isinstance(a0, ast.BinOp) and isinstance(a0.op, ast.Mult) and ast.dump(a0.left) == ast.dump(a0.right):
+                        return True
+            if isinstance(e, ast.BinOp) and isinstance(e.op, ast.MatMult) and ast.dump(e.left) == ast.dump(e.right):
+                return True
+            if isinstance(e, ast.BinOp) and isinstance(e.op, ast.Pow) and isinstance(e.right, ast.Constant) and e.right.value == 2 and is_mag(e.left):
+                return True
+            return False
+
         def is_tol(e: ast.expr) -> bool:
             """a named tolerance constant of the repository or a small float literal"""
             if isinstance(e, ast.Constant):
@@ -130,7 +151,11 @@ def parse(repo: Repo, mod: Module, test: ast.expr) -> Optional[Close]:
 
         if not isinstance(op, (ast.Lt, ast.LtE, ast.Gt, ast.GtE)):
             return None
-        if is_mag(left) or (is_tol(right) and not is_tol(left)):
+        squared = False
+        if is_sq(left) or is_sq(right):
+            squared = True
+            mag, tol, less = (left, right, isinstance(op, (ast.Lt, ast.LtE))) if is_sq(left) else (right, left, isinstance(op, (ast.Gt, ast.GtE)))
+        elif is_mag(left) or (is_tol(right) and not is_tol(left)):
             mag, tol, less = left, right, isinstance(op, (ast.Lt, ast.LtE))
         elif is_mag(right) or (is_tol(left) and not is_tol(right)):
             mag, tol, less = right, left, isinstance(op, (ast.Gt, ast.GtE))
@@ -146,7 +171,7 @@ def parse(repo: Repo, mod: Module, test: ast.expr) -> Optional[Close]:
         lhs = rhs = None
         if isinstance(arg, ast.BinOp) and isinstance(arg.op, ast.Sub):
             lhs, rhs = arg.left, arg.right
-        return Close(test, lhs, rhs, val, -1.0 if relative else 0.0, strict, negated, "norm/abs of a difference against a tolerance", ast.unparse(tol), mag)
+        return Close(test, lhs, rhs, val, -1.0 if relative else 0.0, strict, negated, "norm/abs of a difference against a tolerance", ast.unparse(tol), mag, squared, tol)
     return None
 
 
@@ -223,6 +248,19 @@ def check_functions(r, repo: Repo, qualnames, min_tests=1, scan_modules=(), allo
 
 def _judge(r, fn, c: Close, tol: float, i: int, any_atol: bool, repo: Optional[Repo] = None, need_nonneg: bool = False):
     key = f"close#{i}"
+    if c.squared and c.tol_node is not None:
+        bad_def = _unsquared_definition(fn, c.tol_node)
+        if bad_def is not None:
+            r.bad(
+                fn,
+                f"'{ast.unparse(c.node)[:90]}' compares a SQUARED distance with '{ast.unparse(bad_def)[:50]}', which is a plain (unsquared) tolerance: the effective radius is its square root "
+                "(sqrt(1e-7) = 3e-4 instead of 1e-7) - vertices far apart by the library's own standard are treated as coincident",
+                c.node,
+                key=key,
+            )
+            return
+        r.ok(fn, f"squared distance against a squared tolerance ({ast.unparse(c.tol_node)[:40]})", key=key)
+        return
     if need_nonneg and c.magnitude is not None and repo is not None:
         from .rules.c20 import SignEnv
 
@@ -256,3 +294,26 @@ def _judge(r, fn, c: Close, tol: float, i: int, any_atol: bool, repo: Optional[R
         r.bad(fn, f"'{ast.unparse(c.node)[:90]}' uses the threshold {c.atol_expr} = {c.atol}, not the library tolerance TOL = {tol} its siblings use", c.node, key=key)
         return
     r.ok(fn, f"absolute test, threshold {c.atol_expr or c.atol}", key=key)
+
+
+def _is_squared_expr(e: ast.expr) -> bool:
+    if isinstance(e, ast.BinOp) and isinstance(e.op, ast.Pow) and isinstance(e.right, ast.Constant) and e.right.value == 2:
+        return True
+    if isinstance(e, ast.BinOp) and isinstance(e.op, ast.Mult) and ast.dump(e.left) == ast.dump(e.right):
+        return True
+    return False
+
+
+def _unsquared_definition(fn, tol: ast.expr) -> Optional[ast.expr]:
+    """The first definition of the threshold that is not a square (None if every reaching definition is one)."""
+    if _is_squared_expr(tol):
+        return None
+    if isinstance(tol, ast.Name):
+        defs = [n.value for n in ast.walk(fn.node) if isinstance(n, ast.Assign) and any(isinstance(t, ast.Name) and t.id == tol.id for t in n.targets)]
+        if not defs:
+            return tol
+        for d in defs:
+            if not _is_squared_expr(d):
+                return d
+        return None
+    return tol
